@@ -1,35 +1,19 @@
 import NibabelModel.Model.C05
+import NibabelModel.Lemmas.C05
 /-! Lemmas/C05_hist — the image-state model (data object vs `get_fdata` cache): the bookkeeping
     invariant is preserved by every history and the data object after a history does not depend on
-    the cache. -/
+    the cache nor on any cast. -/
 namespace Nb.C05
+variable {α : Type}
 
 theorem init_wf (p : Bool) (a : Option FD) (n : Nat) : (ImgSt.init p a n).WF := by
   intro c hc; simp [ImgSt.init] at hc
 
-theorem fresh_static (s : ImgSt) (dt : FD) (fill edit : Bool) :
-    (s.fresh dt fill edit).proxy = s.proxy ∧ (s.fresh dt fill edit).arrFD = s.arrFD := ⟨rfl, rfl⟩
-
-theorem step_static (s : ImgSt) (st : HStep) : (s.step st).proxy = s.proxy ∧ (s.step st).arrFD = s.arrFD := by
-  cases st with
-  | uncache => exact ⟨rfl, rfl⟩
-  | getFdata dt fill edit =>
-    show _ ∧ _
-    simp only [ImgSt.step]
-    unfold ImgSt.getFdata
-    split
-    · split
-      · split <;> exact ⟨rfl, rfl⟩
-      · exact ⟨rfl, rfl⟩
-    · exact ⟨rfl, rfl⟩
-
-theorem aliases_congr {s t : ImgSt} (hp : t.proxy = s.proxy) (ha : t.arrFD = s.arrFD) (dt : FD) :
-    t.aliases dt = s.aliases dt := by simp [ImgSt.aliases, hp, ha]
-
-theorem fresh_wf (s : ImgSt) (hw : s.WF) (dt : FD) (fill edit : Bool)
-    (hmiss : ∀ c, s.cache = some c → c.dt ≠ dt) : (s.fresh dt fill edit).WF := by
+theorem fresh_wf (cast : FD → α → α) (s : ImgSt α) (hw : s.WF) (dt : FD) (fill : Bool)
+    (edit : Option (List α → List α)) (hmiss : ∀ c, s.cache = some c → c.dt ≠ dt) :
+    (s.fresh cast dt fill edit).WF := by
   intro c hc
-  have hal : ∀ d, (s.fresh dt fill edit).aliases d = s.aliases d := fun d => rfl
+  have hal : ∀ d, (s.fresh cast dt fill edit).aliases d = s.aliases d := fun d => rfl
   rw [hal]
   cases fill with
   | true =>
@@ -45,24 +29,32 @@ theorem fresh_wf (s : ImgSt) (hw : s.WF) (dt : FD) (fill edit : Bool)
     refine ⟨h1, ?_⟩
     intro h
     have hne := hmiss c hc
-    have : (edit && s.aliases dt) = false := by
-      cases hed : edit with
+    have : s.aliases dt = false := by
+      rw [h] at h1
+      have h1 := h1.symm
+      simp only [ImgSt.aliases, Bool.and_eq_true, Bool.not_eq_true', beq_iff_eq] at h1
+      cases hh : s.aliases dt with
       | false => rfl
       | true =>
-        simp only [Bool.true_and]
-        rw [h] at h1
-        have h1 := h1.symm
-        simp only [ImgSt.aliases, Bool.and_eq_true, Bool.not_eq_true', beq_iff_eq] at h1
-        cases hh : s.aliases dt with
-        | false => rfl
-        | true =>
-          simp only [ImgSt.aliases, Bool.and_eq_true, Bool.not_eq_true', beq_iff_eq] at hh
-          rw [h1.2] at hh
-          exact absurd (Option.some.inj hh.2) hne
+        simp only [ImgSt.aliases, Bool.and_eq_true, Bool.not_eq_true', beq_iff_eq] at hh
+        rw [h1.2] at hh
+        exact absurd (Option.some.inj hh.2) hne
     simp only [ImgSt.fresh, this, Bool.false_eq_true, if_false]
     exact h2 h
 
-theorem step_wf (s : ImgSt) (hw : s.WF) (st : HStep) : (s.step st).WF := by
+theorem step_static (cast : FD → α → α) (s : ImgSt α) (st : HStep α) :
+    (s.step cast st).proxy = s.proxy ∧ (s.step cast st).arrFD = s.arrFD := by
+  cases st with
+  | uncache => exact ⟨rfl, rfl⟩
+  | getFdata dt fill edit =>
+    show _ ∧ _
+    simp only [ImgSt.step]
+    unfold ImgSt.getFdata
+    split
+    · split <;> exact ⟨rfl, rfl⟩
+    · exact ⟨rfl, rfl⟩
+
+theorem step_wf (cast : FD → α → α) (s : ImgSt α) (hw : s.WF) (st : HStep α) : (s.step cast st).WF := by
   cases st with
   | uncache => intro c hc; simp [ImgSt.step] at hc
   | getFdata dt fill edit =>
@@ -72,30 +64,27 @@ theorem step_wf (s : ImgSt) (hw : s.WF) (st : HStep) : (s.step st).WF := by
     · rename_i c hc
       split
       · rename_i hdt
-        split
-        · intro c' hc'
-          simp only [Option.some.injEq] at hc'
-          subst hc'
-          obtain ⟨h1, h2⟩ := hw c hc
-          refine ⟨h1, ?_⟩
-          intro h
-          simp only at h
-          simp only [h, if_true]
-          rw [h2 h]
-        · exact hw
+        intro c' hc'
+        simp only [Option.some.injEq] at hc'
+        subst hc'
+        obtain ⟨h1, h2⟩ := hw c hc
+        refine ⟨h1, ?_⟩
+        intro h
+        simp only at h
+        simp only [h, if_true]
       · rename_i hdt
-        exact fresh_wf s hw dt fill edit (fun c' hc' => by rw [hc] at hc'; cases hc'; exact hdt)
+        exact fresh_wf cast s hw dt fill edit (fun c' hc' => by rw [hc] at hc'; cases hc'; exact hdt)
     · rename_i hc
-      exact fresh_wf s hw dt fill edit (fun c' hc' => by rw [hc] at hc'; cases hc')
+      exact fresh_wf cast s hw dt fill edit (fun c' hc' => by rw [hc] at hc'; cases hc')
 
-theorem run_wf (s : ImgSt) (hw : s.WF) (h : List HStep) : (s.run h).WF := by
+theorem run_wf (cast : FD → α → α) (s : ImgSt α) (hw : s.WF) (h : List (HStep α)) : (s.run cast h).WF := by
   induction h generalizing s with
   | nil => exact hw
-  | cons st r ih => exact ih (s.step st) (step_wf s hw st)
+  | cons st r ih => exact ih (s.step cast st) (step_wf cast s hw st)
 
 /-- one step changes the data exactly as `dataSpec` says -/
-theorem step_data (s : ImgSt) (hw : s.WF) (st : HStep) :
-    (s.step st).data = dataSpec s.proxy s.arrFD [st] s.data := by
+theorem step_data (cast : FD → α → α) (s : ImgSt α) (hw : s.WF) (st : HStep α) :
+    (s.step cast st).data = dataSpec s.proxy s.arrFD [st] s.data := by
   cases st with
   | uncache => rfl
   | getFdata dt fill edit =>
@@ -105,34 +94,41 @@ theorem step_data (s : ImgSt) (hw : s.WF) (st : HStep) :
     · rename_i c hc
       split
       · rename_i hdt
-        obtain ⟨h1, _⟩ := hw c hc
-        cases edit with
-        | false => simp [dataSpec]
+        obtain ⟨h1, h2⟩ := hw c hc
+        simp only [dataSpec]
+        rw [h1, hdt]
+        cases hal : s.aliases dt with
+        | false =>
+          have : (!s.proxy && s.arrFD == some dt) = false := hal
+          simp [this]
         | true =>
-          simp only [if_true, dataSpec]
-          rw [h1, hdt]; rfl
-      · cases edit <;> simp [ImgSt.fresh, dataSpec, ImgSt.aliases]
-    · cases edit <;> simp [ImgSt.fresh, dataSpec, ImgSt.aliases]
+          have : (!s.proxy && s.arrFD == some dt) = true := hal
+          rw [hdt] at h1
+          rw [h2 (h1.trans hal)]
+          simp [this]
+      · simp only [ImgSt.fresh, dataSpec, ImgSt.aliases]
+        split <;> rename_i hh <;> simp [hh]
+    · simp only [ImgSt.fresh, dataSpec, ImgSt.aliases]
+      split <;> rename_i hh <;> simp [hh]
 
-theorem dataSpec_cons (p : Bool) (a : Option FD) (st : HStep) (r : List HStep) (d : List Nat) :
+theorem dataSpec_cons (p : Bool) (a : Option FD) (st : HStep α) (r : List (HStep α)) (d : List α) :
     dataSpec p a (st :: r) d = dataSpec p a r (dataSpec p a [st] d) := by
-  cases st with
-  | uncache => rfl
-  | getFdata dt fill edit => cases edit <;> rfl
+  cases st <;> rfl
 
-theorem run_data (s : ImgSt) (hw : s.WF) (h : List HStep) :
-    (s.run h).data = dataSpec s.proxy s.arrFD h s.data ∧ (s.run h).proxy = s.proxy ∧ (s.run h).arrFD = s.arrFD := by
+theorem run_data (cast : FD → α → α) (s : ImgSt α) (hw : s.WF) (h : List (HStep α)) :
+    (s.run cast h).data = dataSpec s.proxy s.arrFD h s.data ∧ (s.run cast h).proxy = s.proxy ∧
+      (s.run cast h).arrFD = s.arrFD := by
   induction h generalizing s with
   | nil => exact ⟨rfl, rfl, rfl⟩
   | cons st r ih =>
-    have := ih (s.step st) (step_wf s hw st)
-    obtain ⟨hp, ha⟩ := step_static s st
-    rw [hp, ha, step_data s hw st] at this
+    have := ih (s.step cast st) (step_wf cast s hw st)
+    obtain ⟨hp, ha⟩ := step_static cast s st
+    rw [hp, ha, step_data cast s hw st] at this
     refine ⟨?_, this.2.1, this.2.2⟩
     rw [dataSpec_cons]
     exact this.1
 
-theorem dataSpec_inert (p : Bool) (a : Option FD) (hk : p = true ∨ a = none) (h : List HStep) (d : List Nat) :
+theorem dataSpec_inert (p : Bool) (a : Option FD) (hk : p = true ∨ a = none) (h : List (HStep α)) (d : List α) :
     dataSpec p a h d = d := by
   induction h generalizing d with
   | nil => rfl
@@ -140,27 +136,63 @@ theorem dataSpec_inert (p : Bool) (a : Option FD) (hk : p = true ∨ a = none) (
     rw [dataSpec_cons, ih]
     cases st with
     | uncache => rfl
-    | getFdata dt fill edit =>
-      cases edit with
-      | false => rfl
-      | true => rcases hk with rfl | rfl <;> simp [dataSpec]
+    | getFdata dt fill edit => rcases hk with rfl | rfl <;> simp [dataSpec]
 
-theorem dataSpec_rev (p : Bool) (a : Option FD) (h : List HStep) (d : List Nat) :
-    dataSpec p a h d = d ∨ dataSpec p a h d = d.reverse := by
+/-- rearranging edits never introduce a value that was not in the data object -/
+theorem dataSpec_mem (p : Bool) (a : Option FD) (h : List (HStep α)) (hr : ∀ st ∈ h, st.Rearranges) (d : List α)
+    (x : α) (hx : x ∈ dataSpec p a h d) : x ∈ d := by
   induction h generalizing d with
-  | nil => exact Or.inl rfl
+  | nil => exact hx
   | cons st r ih =>
-    rw [dataSpec_cons]
+    rw [dataSpec_cons] at hx
+    have hx' := ih (fun s hs => hr s (List.mem_cons_of_mem _ hs)) _ hx
+    have hst := hr st (List.mem_cons_self ..)
     cases st with
-    | uncache => exact ih d
+    | uncache => exact hx'
     | getFdata dt fill edit =>
-      cases edit with
-      | false => exact ih d
-      | true =>
-        simp only [dataSpec]
-        split
-        · rcases ih d.reverse with h | h
-          · exact Or.inr h
-          · rw [List.reverse_reverse] at h; exact Or.inl h
-        · exact ih d
+      simp only [dataSpec] at hx'
+      split at hx'
+      · cases edit with
+        | none => exact hx'
+        | some e => exact hst d x hx'
+      · exact hx'
+
+theorem ravelC_aux (shape idx : List Nat) (h : idx ∈ allIdx shape) (acc P : Nat) (hacc : acc < P) :
+    (shape.zip idx).foldl (fun acc p => acc * p.1 + p.2) acc < P * prodN shape := by
+  induction shape generalizing idx acc P with
+  | nil =>
+    simp [allIdx] at h
+    subst h
+    simpa [prodN] using hacc
+  | cons n ns ih =>
+    obtain ⟨i, r, hi, hr, rfl⟩ := mem_allIdx_cons.mp h
+    simp only [List.zip_cons_cons, List.foldl_cons, prodN]
+    have h1 : acc * n + i < P * n :=
+      Nat.lt_of_lt_of_le (by rw [Nat.succ_mul]; omega) (Nat.mul_le_mul_right n hacc)
+    have := ih r hr (acc * n + i) (P * n) h1
+    rwa [Nat.mul_assoc] at this
+
+/-- the C-order element number of an in-range multi-index is below the number of elements -/
+theorem ravelC_lt (shape idx : List Nat) (h : idx ∈ allIdx shape) : ravelC shape idx < prodN shape := by
+  have := ravelC_aux shape idx h 0 1 (by omega)
+  simpa [ravelC] using this
+
+theorem range_getD (n k : Nat) (hk : k < n) : (List.range n).getD k default = k := by
+  simp [List.getD, hk]
+
+end Nb.C05
+
+namespace Nb.C05
+/-- on a proxy image whose data object holds `range n`, an operation reading the data object and
+    gathering in-range element numbers returns exactly those numbers, after any history -/
+theorem hist_gather_range (cast : FD → Nat → Nat) (arrFD : Option FD) (n : Nat) (h : List (HStep Nat))
+    (srcs : List Nat) (hs : ∀ k ∈ srcs, k < n) :
+    ((ImgSt.init true arrFD n).run cast h).values .dataobj srcs = srcs := by
+  unfold ImgSt.values
+  simp only [ImgSt.source]
+  rw [(run_data cast _ (init_wf true arrFD n) h).1]
+  simp only [ImgSt.init]
+  rw [dataSpec_inert _ _ (Or.inl rfl)]
+  have : ∀ k ∈ srcs, (fun k => (List.range n).getD k default) k = id k := fun k hk => range_getD n k (hs k hk)
+  rw [List.map_congr_left this, List.map_id]
 end Nb.C05
